@@ -23,6 +23,7 @@ EVID = os.path.join(ROOT, "evidence")
 REPLAYS = os.path.join(EVID, "replays")
 DRIVER = os.path.join(LEAN, ".lake", "build", "bin", "driver")
 HBIN = os.path.join(HARNESS, "target", "debug", "melstf-verif-harness")
+SHARDS = 12
 AXIOM_WHITELIST = {"propext", "Classical.choice", "Quot.sound"}
 FORBIDDEN = ["sorry", "admit", "native_decide", "bv_decide", "implemented_by", "unsafe ", "maxHeartbeats 0"]
 
@@ -169,15 +170,15 @@ def match_known(prop, viol, known):
     for k in known:
         if k.get("status") != "open" or prop not in k["properties"]:
             continue
-        sig = k["signature"]
-        ok = True
-        for key, pat in sig.items():
-            v = viol.get(key)
-            if v is None or not re.search(pat, str(v)):
-                ok = False
-                break
-        if ok:
-            return k
+        for sig in ([k["signature"]] if "signature" in k else []) + k.get("signatures", []):
+            ok = True
+            for key, pat in sig.items():
+                v = viol.get(key)
+                if v is None or not re.search(pat, str(v)):
+                    ok = False
+                    break
+            if ok:
+                return k
     return None
 
 
@@ -241,8 +242,22 @@ def run_check(prop, tier):
             runs.append((name, count, None, ""))
             for i, threads in enumerate(s.get("rayon", []) if thorough else s.get("rayon", [])[:2]):
                 runs.append((name, max(1, count // 3), {"RAYON_NUM_THREADS": str(threads)}, "-t%s" % threads))
-        for (name, count, env, tag) in runs:
-            info = run_stream(workdir, name, seed, count, thorough, env=env, tag=tag)
+        # thorough tier: shard the big streams over the cores (each shard has its own derived seed and directory)
+        if thorough:
+            sharded = []
+            for (name, count, env, tag) in runs:
+                nsh = SHARDS if (env is None and count >= 4 * SHARDS and name not in ("codec", "weight", "exec", "feemult")) else 1
+                for k in range(nsh):
+                    sharded.append((name, max(1, count // nsh), env, tag + ("-s%d" % k if nsh > 1 else ""), seed * 1000 + k if nsh > 1 else seed))
+            runs5 = sharded
+        else:
+            runs5 = [(n, c, e, t, seed) for (n, c, e, t) in runs]
+        import concurrent.futures
+        with concurrent.futures.ThreadPoolExecutor(max_workers=SHARDS if thorough else 4) as ex:
+            futs = [ex.submit(run_stream, workdir, name, sd, count, thorough, env, tag) for (name, count, env, tag, sd) in runs5]
+            infos = [f.result() for f in futs]
+        runs = [(n, c, e, t) for (n, c, e, t, _) in runs5]
+        for (name, count, env, tag), info in zip(runs, infos):
             stream_infos.append({k: info[k] for k in ("stream", "rc", "lines", "gen_s", "driver_rc") if k in info} | {"tag": tag, "driver_s": info.get("driver_s")})
             if info["rc"] != 0 or info.get("driver_rc") not in (0,):
                 violations.append({"kind": "stream-crashed", "stream": name + tag, "detail": (info.get("gen_out", "") + str(info.get("driver_err", "")))[-1500:]})
@@ -327,7 +342,7 @@ def run_check(prop, tier):
                 verdict, detail = "unknown", out[-200:]
             probe_results[pid] = {"verdict": verdict, "detail": detail[:400], "status": k["status"]}
             if verdict == "violates":
-                violations.append({"kind": "probe", "probe": pid, "op": "probe " + pid, "detail": "%s: %s" % (pid, detail[:600]), "legacy": "probe",
+                violations.append({"kind": "probe", "probe": pid, "op": "probe " + pid, "detail": "%s: %s" % (pid, detail[:600]), "legacy": "probe", "liq_tokens_in_play": "n/a", "model_status": "n/a", "opkind": "n/a",
                                    "finding_status": k["status"]})
             elif k["status"] == "open":
                 notes.append("open finding %s no longer reproduces: %s" % (pid, detail[:200]))
